@@ -220,6 +220,12 @@ pub fn c17_print_mem_ds() {
 }
 
 #[cfg_attr(kani, kani::proof)]
+#[cfg_attr(kani, kani::unwind(60))]
+pub fn c17_print_mem_range__t() {
+    print_mem(34, 0);
+}
+
+#[cfg_attr(kani, kani::proof)]
 #[cfg_attr(kani, kani::unwind(40))]
 pub fn c17_twin_reach() {
     // (unwind 40 is enough for the two-byte range)
@@ -235,5 +241,6 @@ pub const TABLE: &[(&str, fn())] = &[
     ("c17_print_mem_range", c17_print_mem_range),
     ("c17_print_mem_count", c17_print_mem_count),
     ("c17_print_mem_ds", c17_print_mem_ds),
+    ("c17_print_mem_range__t", c17_print_mem_range__t),
     ("c17_twin_reach", c17_twin_reach),
 ];
